@@ -6,7 +6,12 @@
 //!   yields exactly those bytes; `as_bytes()` yields the raw bytes.
 //! Outside: hashing, multi-valued iteration, header-name validation, `Uri` parsing.
 pub mod header {
+    /// 6 bytes are enough for a Content-Length value (C14); the content-type harnesses (C15, body and
+    /// query extractors) need whole media types
+    #[cfg(not(feature = "long_values"))]
     pub const VALUE_CAP: usize = 6;
+    #[cfg(feature = "long_values")]
+    pub const VALUE_CAP: usize = 56;
     pub const MAP_CAP: usize = 2;
 
     #[derive(Clone, Copy, PartialEq, Eq, Debug)]
@@ -230,8 +235,46 @@ impl Method {
     pub const POST: Method = Method(1);
     pub const PUT: Method = Method(2);
 }
+/// Request target. Contract kept: `query()` is the part after the first `?` (without it), if any.
+pub const QUERY_CAP: usize = 8;
 #[derive(Clone, Copy, Debug, PartialEq, Eq)]
-pub struct Uri;
+pub struct Uri {
+    has_query: bool,
+    q: [u8; QUERY_CAP],
+    qlen: usize,
+}
+#[allow(non_upper_case_globals)]
+impl Uri {
+    /// shim-only: a target without a query string (`http::Uri` used to be a unit struct in this shim;
+    /// the constant of the same name keeps `target: http::Uri` compiling)
+    pub const fn without_query() -> Uri {
+        Uri { has_query: false, q: [0; QUERY_CAP], qlen: 0 }
+    }
+    /// shim-only: a target whose query string is the given ASCII bytes
+    pub fn with_query(b: &[u8]) -> Uri {
+        let mut u = Uri { has_query: true, q: [0; QUERY_CAP], qlen: 0 };
+        let mut i = 0;
+        while i < b.len() && i < QUERY_CAP {
+            u.q[i] = b[i];
+            i += 1;
+        }
+        u.qlen = i;
+        u
+    }
+    pub fn query(&self) -> Option<&str> {
+        if self.has_query {
+            // harness precondition: ASCII
+            Some(unsafe { std::str::from_utf8_unchecked(&self.q[..self.qlen]) })
+        } else {
+            None
+        }
+    }
+    pub fn path(&self) -> &str {
+        "/"
+    }
+}
+#[allow(non_upper_case_globals)]
+pub const Uri: Uri = Uri::without_query();
 #[derive(Clone, Copy, Debug, PartialEq, Eq)]
 pub struct Version(pub u8);
 impl Version {
